@@ -31,7 +31,9 @@ package pubsubcoreapi
 //@   ensures err == nil ==> (forall x Str :: inList(joining, x) <==> (inList(p.members, x) && !inList(M0, x)))
 //@   ensures err == nil ==> (forall x Str :: inList(leaving, x) <==> (inList(M0, x) && !inList(p.members, x)))
 //@   ensures err == nil ==> noDup(joining) && noDup(leaving)
+//@   let @ after call p.ps.api.PubSub().Peers#1: snap Slice<Str> := $r0
 //@   ensures err == nil ==> p.members == all
+//@   ensures err == nil ==> p.members == snap
 //@   modifies p.members, "MD:Str:V_anon_", "MC:Str:V_anon_", "MV:Str:V_anon_"
 
 // WatchMessages (the forwarding goroutine): a message whose sender is the local peer is never forwarded;
